@@ -137,7 +137,10 @@ def handle (j : J) : J :=
       match (j.get? "spec").bind specOfJ, (j.getArr? "items").bind kvsOfJ, (j.getArr? "ops").bind (·.mapM scopedOpOfJ),
             j.getBool? "partial" with
       | some (.dict (some fields) _), some kvs, some ops, some p =>
-        let c := if kind == "dict" then constructDict env p fields kvs else constructObject env p fields kvs
+        -- construction inside a `pg.allow_partial(x)` scope validates in mode x; the container's own
+        -- mode (the constructor argument) is what the later steps run under
+        let pc := (j.getBool? "construct_partial").getD p
+        let c := if kind == "dict" then constructDict env pc fields kvs else constructObject env pc fields kvs
         match c with
         | .error e => .obj [("construct", .str (eName e)), ("steps", .arr [])]
         | .ok d => .obj [("construct", kvsToJ d.kvs), ("conforms", .bool (conformsDB env true d)),
